@@ -156,9 +156,15 @@ pub fn partner<S: HasR>(r: &mut Rng, a: &[S], kind: u64) -> (Vec<S>, &'static st
             (v, "near-orthogonal")
         }
         4 => {
-            // exactly parallel / equal
-            let s = if r.bool() { 1.0 } else { -1.0 } * if r.bool() { 1.0 } else { 2.0 };
-            (af.iter().map(|x| S::of(x * s)).collect(), "exactly-(anti)parallel")
+            // exactly parallel / equal (power-of-two factor), or parallel up to the rounding of an arbitrary factor: the
+            // computed cosine is then 1 +- a few ulps, on either side of 1
+            if r.bool() {
+                let s = if r.bool() { 1.0 } else { -1.0 } * if r.bool() { 1.0 } else { 2.0 };
+                (af.iter().map(|x| S::of(x * s)).collect(), "exactly-(anti)parallel")
+            } else {
+                let s = if r.bool() { 1.0 } else { -1.0 } * r.range(0.05, 20.0);
+                (af.iter().map(|x| S::of(x * s)).collect(), "(anti)parallel-up-to-rounding")
+            }
         }
         _ => {
             // same scale, random direction
